@@ -278,6 +278,7 @@ inductive GetValue where
   | absent                 -- `(nil, false, nil)`
   | error
   | unmodelled
+  | panic                  -- `pointerstructure.Get` panicked (mapstructure, uncomparable array below a pointer key type)
   deriving Repr, Inhabited
 
 /-- the local-variable rewriting loop of `getValue` (scans from the newest binding down) -/
@@ -309,6 +310,7 @@ def getValue (o : Opts) (datum : Any) (path : List GoString) : GetValue :=
     match get o.cfg path datum with
     | .ok v => .present v
     | .error .unmodelled => .unmodelled
+    | .error .panic => .panic
     | .error .notFound =>
       match o.unknown with
       | some u => .present u
@@ -333,6 +335,7 @@ def evaluateMatch (re : RegexOracle) (o : Opts) (datum : Any) (sel : Selector) (
   match getValue o datum sel.path with
   | .error => .err false
   | .unmodelled => .unmodelled
+  | .panic => .panic
   | .absent => .val (notPresentDisposition op)
   | .present v =>
     match narrowJsonNumber v with
@@ -410,6 +413,7 @@ def evaluate (re : RegexOracle) : Expr → Opts → Any → Out
     match getValue o d sel.path with
     | .error => .err false
     | .unmodelled => .unmodelled
+    | .panic => .panic
     | .absent => .val (op == .all)
     | .present v =>
       match v with
